@@ -292,6 +292,9 @@ func (s *Stream) Close() error {
 	}
 	if atomic.LoadUint32(&s.callbackInProcess) == 1 {
 		atomic.CompareAndSwapUint32(&s.state, uint32(streamOpened), uint32(streamHalfClosed))
+		// the close itself is done by the callback goroutine when OnData returns: release a read (or a Flush retry)
+		// which is blocked inside OnData, otherwise OnData never returns and the stream is never closed.
+		s.safeCloseNotify()
 		return nil
 	}
 
